@@ -326,6 +326,8 @@ class Impl(object):
             return self.call(lambda: self.file_bytes("l"))
         if op == 45:
             return self.call(lambda: [len(self.file_bytes("t")), len(self.file_bytes("l"))])
+        if op == 80:
+            return self.interleave(a[0], a[1])
         # ---- helpers ----
         H = sys.modules["traph.helpers"]
         if op == 60:
@@ -358,6 +360,75 @@ class Impl(object):
         if op == 65:
             return self.call(lambda: H.lru_dirname(a[0]))
         return Crash("unknown opcode %r" % op)
+
+
+def _interleave(self, specs, sched):
+    """start the generator requests, advance them in the order of the schedule (every loop iteration a
+    yield point), then finish the unfinished ones in index order"""
+    TIS = sys.modules["traph.traph_iterator_state"].TraphIteratorState
+    TE = self.traph_mod.TraphException
+    t = self.t
+    orig = TIS.should_yield
+
+    def always(self_, yield_frequency=1000):
+        self_.n_iterations += 1
+        return True
+    TIS.should_yield = always
+    try:
+        gens, res, done = [], [], []
+        for sp in specs:
+            if sp[0] == 0:
+                data = {}
+                for src, tgts in sp[1]:
+                    data[src] = list(tgts)
+                gens.append(t.index_batch_crawl_iter(data, 1))
+            elif sp[0] == 1:
+                gens.append(t.add_webentity_creation_rule_iter(sp[1], rule_regex(sp[2])))
+            else:
+                gens.append(t.get_webentity_pages_iter(sp[1], list(sp[2])))
+            res.append(None)
+            done.append(False)
+
+        def advance(i):
+            if done[i]:
+                return
+            try:
+                st = next(gens[i])
+                if st.done:
+                    done[i] = True
+                    res[i] = st.result
+            except StopIteration:
+                done[i] = True
+            except TE:
+                done[i] = True
+                res[i] = REFUSED
+            except _Timeout:
+                raise
+            except Exception as e:
+                done[i] = True
+                res[i] = Crash("%s: %s" % (type(e).__name__, e))
+        for i in sched:
+            if 0 <= i < len(gens):
+                advance(i)
+        for i in range(len(gens)):
+            guard = 0
+            while not done[i] and guard < 100000:
+                advance(i)
+                guard += 1
+        out = []
+        for sp, r in zip(specs, res):
+            if r is REFUSED or isinstance(r, Crash):
+                out.append([1, r])
+            elif sp[0] in (0, 1):
+                out.append([1, self.report(r)])
+            else:
+                out.append([1, [[p["lru"], _b(p["crawled"])] for p in r]])
+        return out
+    finally:
+        TIS.should_yield = orig
+
+
+Impl.interleave = lambda self, specs, sched: self.call(lambda: _interleave(self, specs, sched))
 
 
 # ---- generic syntax (shared with ocaml/driver.ml) -------------------------------------
